@@ -1,4 +1,6 @@
 """F-C20-1: entry points that fail on a freshly defined object (run with /venv/bin/python; not a check)"""
+import os, sys
+sys.path.insert(0, os.getcwd())   # test the tree we are run from
 import numpy as np, traceback
 from compmech.panel import Panel
 from compmech.stiffpanelbay import StiffPanelBay
